@@ -54,17 +54,50 @@ def auto_out_of_scope(pre, op, post):
     return child[1][:len(parent[1])] != parent[1]
 
 
+_BOX = None
+
+
+def box_cls():
+    """a tensorclass whose single field holds a tensordict: the tensorclass keeps its fields in a TensorDict (`_tensordict`), so
+    the modelled tree is {"td": <tree>} under the batch size / device / names of the tensorclass"""
+    global _BOX
+    if _BOX is None:
+        from tensordict import TensorDict, tensorclass
+
+        @tensorclass
+        class C01Box:
+            td: TensorDict
+        _BOX = C01Box
+    return _BOX
+
+
+ROOT_OPS_ON_BOX = ("setbatch", "setnames", "refine", "auto")
+
+
 def run_history(run, rng, hid, maxlen, steps):
     bs = O.gen_bs(rng)
     dev = rng.choice([None, None, 0, 1])
     init = O.gen_tree(rng, bs, dev, depth=2)
+    boxed = rng.random() < 0.15
     try:
         td = O.build(init)
+        if boxed:
+            # tensorclass-wrapped: the same modelled operations, issued through the tensorclass and the tensordict it holds
+            rbs = list(bs[:rng.randint(0, len(bs))])
+            holder = O.build(["n", rbs, dev, None, []])
+            holder.set("td", td)
+            if rbs and rng.random() < 0.3:
+                holder.names = O.gen_names(rng, len(rbs), 1.0)
+            td = box_cls()._from_tensordict(holder)
     except Exception:   # noqa  (the generator produced something the constructor rejects: not a case)
         return
+    snap = (lambda x: O.snap(x._tensordict)) if boxed else O.snap
+    walk = (lambda x: O.walk_coherent(x._tensordict)) if boxed else O.walk_coherent
     for stepno in range(rng.randint(1, maxlen)):
-        pre = O.snap(td)
+        pre = snap(td)
         op = O.gen_op(rng, pre)
+        if boxed and not op[1] and op[0] not in ROOT_OPS_ON_BOX:
+            continue        # the fields of the tensorclass itself are not added / removed / renamed
         if not in_scope(pre, op):
             continue
         op = O.prepare_op(op)
@@ -73,7 +106,7 @@ def run_history(run, rng, hid, maxlen, steps):
         case = {"history": hid, "step": stepno, "pre": pre, "op": op[:4]}
         try:
             out = O.apply_impl(td, op)
-            post = O.snap(td)
+            post = snap(td)
             if op[0] == "write":
                 # the model is given the observed state of the addressed node: it accepts it iff it lies inside the envelope
                 obs = O.get_at(post, op[1])
@@ -83,7 +116,7 @@ def run_history(run, rng, hid, maxlen, steps):
                 case["op"] = op[:3] + [op[4]]
             else:
                 op = op[:4]
-            viol = O.walk_coherent(td)
+            viol = walk(td)
         except TimeoutError:
             raise
         except Exception as e:  # noqa
@@ -97,6 +130,9 @@ def run_history(run, rng, hid, maxlen, steps):
         run.count("outcome", out[0] + (":" + out[1] if out[0] == "err" else ""))
         run.count("batch_rank", len(pre[1]))
         run.count("handle_depth", len(op[1]))
+        run.count("container", "tensorclass" if boxed else "TensorDict")
+        if boxed:
+            case["container"] = "tensorclass"
         steps.append({"case": case, "pre": pre, "op": op, "impl": [post, out]})
         if viol:
             report_walk(run, case, op, out, viol)
@@ -160,6 +196,8 @@ def main():
         "Model/C01Coherence.lean: hand transcription of _validate_value/_set_tuple/_batch_size_setter/_check_new_batch_size/names setter/_rename_subtds/"
         "rename_key_/create_nested/_set_max_batch_size/_exclude/_flatten_keys_inplace/unflatten_keys (each function cites its source); tied to the code by the per-step correspondence of this check",
         "harness/c01_ops.py: generators, snapshot, walk_coherent (the oracle)",
+        "Model/C01Lazy.lean: hand transcription of LazyStackedTensorDict names getter/setter, insert/append, _set_str/_set_tuple, del_, rename_key_, the refused batch_size "
+        "assignment (a lazy stack as root container); tied to the code by the streams lazy.state / lazy.outcome",
     ]
     run.assumptions += [
         "values of leaves are not modelled (C02/C03/C07); `.to(device)` is modelled as: result on the requested device, except out of the meta device (raises)",
@@ -195,6 +233,8 @@ def main():
             run.corr("step.outcome", s["case"], s["impl"][1], model[1])
     for s in steps[:3]:
         run.sample({"pre": s["pre"], "op": s["op"], "impl_post": s["impl"][0], "impl_out": s["impl"][1]})
+    import c01_lazy
+    c01_lazy.run_lazy(run, drv, rng, 150 if run.tier == "quick" else 1500)
     import c01_extended
     c01_extended.run_extended(run, rng)
     run.finish("proof")
